@@ -30,6 +30,7 @@ type LocalDef struct {
 	Text   string
 	Expr   ast.Expr
 	Rec    bool
+	Base   ast.Expr
 }
 
 type Contract struct {
@@ -56,6 +57,7 @@ type Contract struct {
 	Havoc    string // extern: "all" | "none" | "" (default by args)
 	Inline   bool
 	Lemmas   []string
+	LocalLemmas []*LocalLemma
 
 	File string
 	Line int
@@ -585,8 +587,18 @@ func (w *World) parseBlocks(ls []rawLine, pkgPath string) error {
 			}
 			d := &LocalDef{Name: name, Params: params, Result: result, Text: body}
 			if strings.HasPrefix(body, "rec ") {
+				// natural recursion on the last parameter k:  f(..., k) = BASE for k <= 0;  f(..., k+1) = STEP for k >= 0
 				d.Rec = true
-				body = strings.TrimSpace(body[4:])
+				parts := splitTop(strings.TrimSpace(body[4:]), ";")
+				if len(parts) != 2 {
+					return fail2("recursive def needs 'rec BASE ; STEP'")
+				}
+				be, err := parseContractExpr(strings.TrimSpace(parts[0]))
+				if err != nil {
+					return fail2("%v", err)
+				}
+				d.Base = be
+				body = strings.TrimSpace(parts[1])
 				d.Text = body
 			}
 			e, err := parseContractExpr(body)
@@ -607,7 +619,39 @@ func (w *World) parseBlocks(ls []rawLine, pkgPath string) error {
 			cl.Name = strings.TrimSpace(callee)
 			cur.Asserts = append(cur.Asserts, cl)
 		case "lemma":
-			cur.Lemmas = append(cur.Lemmas, strings.Fields(rest)...)
+			// lemma name(params) induction x from e: P
+			head, body, ok := strings.Cut(rest, ":")
+			if !ok {
+				return fail2("lemma needs 'name(params) induction x from e: P'")
+			}
+			op := strings.Index(head, "(")
+			cp := strings.Index(head, ")")
+			if op < 0 || cp < op {
+				return fail2("lemma needs parameters")
+			}
+			ll := &LocalLemma{Name: strings.TrimSpace(head[:op]), Text: strings.TrimSpace(body)}
+			ps, err := parseParams(head[op+1 : cp])
+			if err != nil {
+				return fail2("%v", err)
+			}
+			ll.Params = ps
+			tail := strings.Fields(head[cp+1:])
+			if len(tail) >= 4 && tail[0] == "induction" && tail[2] == "from" {
+				ll.Var = tail[1]
+				fe, err := parseContractExpr(strings.Join(tail[3:], " "))
+				if err != nil {
+					return fail2("%v", err)
+				}
+				ll.From = fe
+			} else if len(tail) != 0 {
+				return fail2("expected: induction x from e")
+			}
+			e, err := parseContractExpr(ll.Text)
+			if err != nil {
+				return fail2("%v", err)
+			}
+			ll.Expr = e
+			cur.LocalLemmas = append(cur.LocalLemmas, ll)
 		default:
 			return fail2("unknown clause %q", word)
 		}
